@@ -93,6 +93,7 @@ Definition c04_must_reuse (past : list seen) (now : Z) : option Z :=
   | Some j =>
       if got_full j && negb (got_304 j)
          && must_store (sn_pol j) GET (oa_status (sn_oa j)) (oa_hv (sn_oa j)) (sn_now j)
+         && judged j      (* the prescribed lifetime is only defined for ASCII directives or a forced default *)
          && (sn_now j <=? now)
          && (now - sn_now j + margin <? lifetime_lower (sn_pol j) (oa_hv (sn_oa j)) (sn_now j))
       then Some (oa_version (sn_oa j)) else None
